@@ -84,6 +84,51 @@ Theorem c20_expired_entry_is_served : forall (l : list op) (k : N),
 Proof. exact expired_entry_is_served. Qed.
 Print Assumptions c20_expired_entry_is_served.
 
+(* Failing store calls.  Manager.Put while store.GetRegistryValue fails with an error other than
+   "not found" (or while store.SetRegistryValue fails) is refused and changes nothing — in
+   particular a failed lookup is NOT "key not stored" (seeded C20-mut9); with
+   c20_read_last_accepted, which quantifies over histories containing such operations, a read still
+   returns the last accepted update.  A write fault on a stored key hands the stored entry back.
+   A history with failing Put / Get / Entries calls is the same history without them. *)
+Theorem c20_put_lookup_fault_changes_nothing : forall s k e valid f,
+  fst (step s (PutF k e valid f)) = s /\
+  exists r, snd (step s (PutF k e valid f)) = OPut false r.
+Proof. exact put_fault_changes_nothing. Qed.
+Print Assumptions c20_put_lookup_fault_changes_nothing.
+
+Theorem c20_put_write_fault_returns_stored : forall s k e old,
+  alookup k (entries s) = Some old -> snd (step s (PutF k e true FWrite)) = OPut false (Some old).
+Proof. exact put_write_fault_returns_stored. Qed.
+Print Assumptions c20_put_write_fault_returns_stored.
+
+Theorem c20_store_faults_are_invisible : forall s l,
+  runs s (filter (fun o => negb (is_fault o)) l) = runs s l /\
+  trace s (filter (fun o => negb (is_fault o)) l) = filter (fun x => negb (is_fault (fst x))) (trace s l).
+Proof. exact without_faults. Qed.
+Print Assumptions c20_store_faults_are_invisible.
+
+(* The access recorder.  Its flush (10 s timer, Manager.Close), successful or not, never changes
+   the registry-entries metric, the count or anything else but the access counters (seeded
+   C20-mut10 added the write count to registryEntries); a successful flush adds the pending counts
+   to registryReads / registryWrites. *)
+Theorem c20_flush_never_changes_entries_metric : forall l ok,
+  let s := runs init l in
+  let s' := fst (step s (Flush ok)) in
+  metric s' = metric s /\ count s' = count s /\ metric s' = Z.of_N (count s').
+Proof. exact flush_keeps_entries_metric. Qed.
+Print Assumptions c20_flush_never_changes_entries_metric.
+
+Theorem c20_flush_keeps_registry : forall s ok, eq_but_access (fst (step s (Flush ok))) s.
+Proof. exact flush_keeps_registry. Qed.
+Print Assumptions c20_flush_keeps_registry.
+
+Theorem c20_flush_persists_pending_counts : forall s,
+  let s' := fst (step s (Flush true)) in
+  mreads s' = (mreads s + Z.of_N (pend_r s))%Z /\ mwrites s' = (mwrites s + Z.of_N (pend_w s))%Z /\
+  pend_r s' = 0%N /\ pend_w s' = 0%N.
+Proof. exact flush_persists_pending. Qed.
+Print Assumptions c20_flush_persists_pending_counts.
+
 (* non-vacuity: an accepted and a rejected update exist *)
 Example c20_nonvacuous :
   snd (step (runs init [SetLimit 2; Put 1 e1 100 true false]) (Put 1 e1 100 true false))
@@ -96,3 +141,16 @@ Example c20_expired_nonvacuous :
   expired (runs init [SetLimit 1; Put 1 e1 100 true false; Tip 200]) 1 /\
   snd (step (runs init [SetLimit 1; Put 1 e1 100 true false; Tip 200]) Info) = OInfo 1 1 1.
 Proof. exact expired_witness. Qed.
+
+(* non-vacuity of the fault / flush statements: a stale update under a failing lookup is refused,
+   the read still returns revision 1; after an update of the stored key and a flush the access
+   counters are 1 / 1 and the entries metric is still the count *)
+Example c20_fault_nonvacuous :
+  trace init [SetLimit 1; Put 1 e1 100 true false; PutF 1 {| rev := 0; ety := 1; vid := 2 |} true FLookup;
+              Get 1; Put 1 {| rev := 2; ety := 1; vid := 3 |} 100 true false; Flush true; Access; Info] =
+  [(SetLimit 1, ODone); (Put 1 e1 100 true false, OPut true (Some e1));
+   (PutF 1 {| rev := 0; ety := 1; vid := 2 |} true FLookup, OPut false None);
+   (Get 1, OGet (Some e1));
+   (Put 1 {| rev := 2; ety := 1; vid := 3 |} 100 true false, OPut true (Some {| rev := 2; ety := 1; vid := 3 |}));
+   (Flush true, ODone); (Access, OAccess 1 1); (Info, OInfo 1 1 1)].
+Proof. exact fault_witness. Qed.
